@@ -784,7 +784,7 @@ def check_gromacs_box(ctx, rid):
         lit = Rec(licls, filename="F", fh=iter([line]), lineno=0, stack=[])
         ev = AccessorEval(prog, licls, limit=2000)
         ev.module = f.module
-        ev._globals = {("iodata.utils", "nanometer"): 1.0}
+        ev._globals = {("iodata.utils", "nanometer"): 1000.0}  # so that an entry that misses the conversion shows
         local = {f.posparams[0]: lit}
         try:
             ev._block(frag, local)
@@ -793,7 +793,13 @@ def check_gromacs_box(ctx, rid):
             continue
         except NotSymbolic as exc:
             raise AnalysisError(f"gromacs box fragment is outside the evaluation whitelist: {exc}") from exc
-        got = np.asarray(local[cvar], dtype=float).round().astype(int).tolist()
+        raw = np.asarray(local[cvar], dtype=float)
+        unconv = [(i, j) for i in range(3) for j in range(3) if want[i][j] and abs(raw[i, j] - want[i][j]) < 1e-6]
+        if unconv:
+            i, j = unconv[0]
+            ctx.violate(rid, f"GRO {label}: cellvecs[{i}, {j}] holds the number of the file as it is, without the nanometer conversion the other entries get ({len(unconv)} of {sum(1 for r in want for v in r if v)} entries): the conversion is applied before these entries are stored", f, f.body[start], construct=f"gro box {label}: entries not converted")
+            continue
+        got = (raw / 1000.0).round().astype(int).tolist()
         if got == want:
             ctx.ok(rid, f"GRO {label}: every number lands at (vector, component) as the format orders them", f"{f.module.relpath}:{f.body[start].lineno}")
         else:
